@@ -130,7 +130,13 @@ func (s *StandardUpgradeableBeaconState) UpgradeMaybe(ctx context.Context, spec 
 	return nil
 }
 
+// UnwrapBeaconState returns the current (possibly upgraded) state held by the wrapper.
+func (s *StandardUpgradeableBeaconState) UnwrapBeaconState() common.BeaconState {
+	return s.BeaconState
+}
+
 var _ common.UpgradeableBeaconState = (*StandardUpgradeableBeaconState)(nil)
+var _ common.WrappedBeaconState = (*StandardUpgradeableBeaconState)(nil)
 
 func EnvelopeToSignedBeaconBlock(benv *common.BeaconBlockEnvelope) (common.SpecObj, error) {
 	switch x := benv.Body.(type) {
